@@ -43,7 +43,7 @@ class TextualDataType(BaseTextualDataType):
                     (encoding_chars['REPETITION'], '{esc}R{esc}'.format(esc=escape_char)),)
 
     def _get_escape_char_regex(self, escape_char):
-        return r'(?<!%s[HNFSTREL])%s(?![HNFSTREL]%s)' % tuple(3 * [re.escape(escape_char)])
+        return r'(%s[HNFSTREL]%s)' % tuple(2 * [re.escape(escape_char)])
 
     def to_er7(self, encoding_chars=None):
         if encoding_chars is None:
